@@ -86,3 +86,8 @@ def unobj(t: Any) -> Any:
     while isinstance(t, tuple) and t and t[0] == "obj":
         t = t[2]
     return t
+
+
+def elem_of(t: Any, it: Any) -> bool:
+    """t is the loop / comprehension variable ranging over ``it`` (at any nesting depth)."""
+    return isinstance(t, tuple) and len(t) == 3 and t[0] == "elem" and t[1] == it
